@@ -41,7 +41,7 @@ PROPS["C02"] = {
              "text, or the text is 1-2 edits away from a reference-accepted text (near-miss), or (host twins) it is domain-valid but hostname-invalid; "
              "distinct = distinct text per kind."),
     "assumptions": ["netip.ParseAddr/ParseAddrPort of go1.24.2 define the accepted language"],
-    "expect_classes": {"ip:valid-v6-with-v4-tail": 0.0003, "c02.ip:near-miss": 0.001},
+    "expect_classes": {"ip:valid-v6-with-v4-tail": ("c02.ip", 0.005), "c02.ip:near-miss": ("c02.ip", 0.05)},
     "quick": {"scale": 3, "shards": 1, "timeout": 300},
     "thorough": {"scale": 10, "shards": 16, "timeout": 1500, "fuzz": [("FuzzIP", 45), ("FuzzIPPort", 45), ("FuzzHost", 30)]},
 }
@@ -233,6 +233,24 @@ PROPS["C12"] = {
     "expect_classes": {"net:membership-checked-proper-subnet": 0.1, "net:rejected-bad-mask": 0.05},
     "quick": {"scale": 4, "shards": 1, "timeout": 300},
     "thorough": {"scale": 10, "shards": 16, "timeout": 1500},
+}
+
+PROPS["C13"] = {
+    "pkg": "c13",
+    "technique": "differential property testing against a brute-force EqualFold window search (exhaustive over a 12-rune alphabet with 3-member fold orbits, plus fold-orbit-derived random pairs) and the literal SplitTrimmed definition; native fuzzing in the thorough tier",
+    "level_text": ("Generated-input search against the statement's own definitions: ContainsFold must equal a brute-force search over all rune-boundary windows of the "
+                   "needle's byte length with strings.EqualFold (and strings.Contains(ToLower, ToLower) for ASCII operands); SplitTrimmed must equal the non-empty "
+                   "TrimSpace'd pieces of strings.Split(TrimSpace(s), sep) and be non-nil. Exhaustive for haystacks of <= 4 (thorough 5) runes x needles of <= 2 "
+                   "runes over {k K KELVIN s S long-s sigma final-sigma a B 1 I-dot}; everything else sampled. Exploration."),
+    "level_note": "Trusted: strings.EqualFold / unicode tables of go1.24.2. Operands are valid UTF-8 without U+FFFD, as the statement requires.",
+    "rule": ("Random pairs: haystacks of 0-12 runes over an alphabet rich in multi-member fold orbits; needle derived from a haystack window by moving runes within "
+             "their orbits (2/3 of cases) or independent. Non-trivial: the reference is true through a window that is not byte-identical to the needle, or the "
+             "needle's first rune has a fold orbit of >= 3 members; distinct = distinct pair. SplitTrimmed: strings over separators, ASCII and Unicode white "
+             "space, letters; 11 separators incl. empty and multi-byte; non-trivial = some piece is dropped or there are no pieces."),
+    "assumptions": [],
+    "expect_classes": {"fold:true-via-non-identical-window": ("c13.fold", 0.1), "fold:needle-starts-with-orbit>=3": ("c13.fold", 0.1)},
+    "quick": {"scale": 1, "shards": 1, "timeout": 300},
+    "thorough": {"scale": 10, "shards": 16, "timeout": 1500, "fuzz": [("FuzzFold", 60)]},
 }
 
 ALL_IDS = ["C%02d" % i for i in range(1, 21)]
